@@ -20,7 +20,7 @@ const c26TimeoutTicks = 3 // flagTimeout / sequencerResolution
 
 type c26lister struct {
 	avail  bool
-	onList func(boson.Address)
+	onList func(boson.Address) error
 }
 
 func (l *c26lister) NetworkStatus() p2p.NetworkStatus {
@@ -30,8 +30,7 @@ func (l *c26lister) NetworkStatus() p2p.NetworkStatus {
 	return p2p.NetworkStatusUnavailable
 }
 func (l *c26lister) Blocklist(a boson.Address, _ time.Duration, _ string) error {
-	l.onList(a)
-	return nil
+	return l.onList(a)
 }
 
 // per-peer monitor automaton, fed with events in the order the scheduler executed them
@@ -119,7 +118,8 @@ func c26run(t *testing.T, name string, depth, maxDev, nOps int, menu []int) {
 			vnow := func() time.Duration { return vsched.Current().Elapsed() }
 			violation, vkey := "", ""
 			racers := 0
-			lister.onList = func(a boson.Address) {
+			faults := 0
+			lister.onList = func(a boson.Address) error {
 				i := idx(a)
 				m := mon[i]
 				now := seq()
@@ -159,6 +159,14 @@ func c26run(t *testing.T, name string, depth, maxDev, nOps int, menu []int) {
 						x.Tag("racer-during-blocklist")
 					}
 				}
+				// the blocklister may fail (implementation-side fault); the flag period has still
+				// led to its one blocklisting
+				if faults < 1 && x.Deviate(2) == 1 {
+					faults++
+					x.Tag("blocklist-call-failed")
+					return fmt.Errorf("blocklist unavailable")
+				}
+				return nil
 			}
 			verdict := vsched.Run(x, vsched.Options{MaxSteps: 20000, MaxTimers: 60, DelayBounded: true, Trace: mc.EnvInt("VERIF_TRACE", 0) == 1}, func(s *vsched.S) {
 				b = New(lister, 3*time.Second, time.Minute, time.Second, nil, logging.New(io.Discard, 0))
